@@ -189,6 +189,18 @@ pub fn check_case(c: &Case) -> CheckResult {
         vensure!(it.next().is_none(), "not-exhausted", "scope calls {:?}: call {} after exhaustion returned a showdown", c.scopes, k + 1);
     }
     compare(&full, from, to, &got, &format!("after scope calls {:?}", c.scopes.iter().map(|(a, b)| (index_pos(*a), index_pos(*b))).collect::<Vec<_>>()))?;
+    // the same scoped run consumed through nth()/skip()/step_by()/count()/last()/collect()
+    {
+        let mk = || {
+            let mut ev = c.cfg.evaluator();
+            for (a, b) in &c.scopes {
+                let (pa, pb) = (index_pos(*a), index_pos(*b));
+                ev.scope(pa.0, pa.1, pb.0, pb.1);
+            }
+            ev
+        };
+        consume_variants(&mk, &tr, want_len, fp_of(&format!("{:?}", c)), &format!("window {:?}..{:?}", index_pos(from), index_pos(to)))?;
+    }
     let mut cls = window_classes(&full, from, to);
     if c.scopes.len() >= 2 {
         cls |= 64;
